@@ -533,27 +533,31 @@ func specBEValue(data []byte, p int, n uint64) uint64 {
 }
 
 // Views of a boxed value (interface{}) for contracts.
-func vcAsString(x interface{}) string         { v, _ := x.(string); return v }
-func vcIsInt64(x interface{}) bool            { _, ok := x.(int64); return ok }
-func vcAsInt64(x interface{}) int64           { v, _ := x.(int64); return v }
-func vcIsBigInt(x interface{}) bool           { _, ok := x.(*big.Int); return ok }
-func vcAsBigInt(x interface{}) *big.Int       { v, _ := x.(*big.Int); return v }
-func vcIsBool(x interface{}) bool             { _, ok := x.(bool); return ok }
-func vcIsFloat64(x interface{}) bool          { _, ok := x.(float64); return ok }
-func vcIsString(x interface{}) bool           { _, ok := x.(string); return ok }
-func vcIsBytes(x interface{}) bool            { _, ok := x.([]byte); return ok }
-func vcIsDecimal(x interface{}) bool          { v, ok := x.(*Decimal); return ok && v != nil }
-func vcIsTimestamp(x interface{}) bool        { _, ok := x.(Timestamp); return ok }
-func vcIsSymbolToken(x interface{}) bool      { v, ok := x.(*SymbolToken); return ok && v != nil }
-func vcIsType(x interface{}) bool             { _, ok := x.(Type); return ok }
-func vcIsSST(t SymbolTable) bool              { v, ok := t.(*sst); return ok && v != nil }
-func vcAsSST(t SymbolTable) *sst              { v, _ := t.(*sst); return v }
-func vcAsBinaryWriter(w Writer) *binaryWriter { v, _ := w.(*binaryWriter); return v }
-func vcIsBogusSST(t SymbolTable) bool         { v, ok := t.(*bogusSST); return ok && v != nil }
-func vcAsBogusSST(t SymbolTable) *bogusSST    { v, _ := t.(*bogusSST); return v }
-func vcAsTextReader(r Reader) *textReader     { v, _ := r.(*textReader); return v }
-func vcIsTextReader(r Reader) bool            { v, ok := r.(*textReader); return ok && v != nil }
-func vcIsBinaryReader(r Reader) bool          { v, ok := r.(*binaryReader); return ok && v != nil }
+func vcAsString(x interface{}) string                      { v, _ := x.(string); return v }
+func vcIsInt64(x interface{}) bool                         { _, ok := x.(int64); return ok }
+func vcAsInt64(x interface{}) int64                        { v, _ := x.(int64); return v }
+func vcIsBigInt(x interface{}) bool                        { _, ok := x.(*big.Int); return ok }
+func vcAsBigInt(x interface{}) *big.Int                    { v, _ := x.(*big.Int); return v }
+func vcIsBool(x interface{}) bool                          { _, ok := x.(bool); return ok }
+func vcIsFloat64(x interface{}) bool                       { _, ok := x.(float64); return ok }
+func vcIsString(x interface{}) bool                        { _, ok := x.(string); return ok }
+func vcIsBytes(x interface{}) bool                         { _, ok := x.([]byte); return ok }
+func vcIsDecimal(x interface{}) bool                       { v, ok := x.(*Decimal); return ok && v != nil }
+func vcIsTimestamp(x interface{}) bool                     { _, ok := x.(Timestamp); return ok }
+func vcIsSymbolToken(x interface{}) bool                   { v, ok := x.(*SymbolToken); return ok && v != nil }
+func vcIsType(x interface{}) bool                          { _, ok := x.(Type); return ok }
+func vcIsSST(t SymbolTable) bool                           { v, ok := t.(*sst); return ok && v != nil }
+func vcAsSST(t SymbolTable) *sst                           { v, _ := t.(*sst); return v }
+func vcIsBuilder(t SymbolTableBuilder) bool                { v, ok := t.(*symbolTableBuilder); return ok && v != nil }
+func vcAsBuilder(t SymbolTableBuilder) *symbolTableBuilder { v, _ := t.(*symbolTableBuilder); return v }
+func vcIsLST(t SymbolTable) bool                           { v, ok := t.(*lst); return ok && v != nil }
+func vcAsLST(t SymbolTable) *lst                           { v, _ := t.(*lst); return v }
+func vcAsBinaryWriter(w Writer) *binaryWriter              { v, _ := w.(*binaryWriter); return v }
+func vcIsBogusSST(t SymbolTable) bool                      { v, ok := t.(*bogusSST); return ok && v != nil }
+func vcAsBogusSST(t SymbolTable) *bogusSST                 { v, _ := t.(*bogusSST); return v }
+func vcAsTextReader(r Reader) *textReader                  { v, _ := r.(*textReader); return v }
+func vcIsTextReader(r Reader) bool                         { v, ok := r.(*textReader); return ok && v != nil }
+func vcIsBinaryReader(r Reader) bool                       { v, ok := r.(*binaryReader); return ok && v != nil }
 func vcAsBinaryReader(r Reader) *binaryReader {
 	v, _ := r.(*binaryReader)
 	return v
